@@ -9,7 +9,7 @@ The rendering a response must carry is an oracle: the driver calls handle.render
 every step (and checks both are equal) and prints it; parse_out stores it into the case so that the Coq side
 receives it as data (C07/C08 are about its content).
 """
-from .core import Prop, cq_N, cq_bool, cq_list, cq_opt, cq_bytes
+from .core import Prop, MachineryBroken, cq_N, cq_bool, cq_list, cq_opt, cq_bytes
 
 M32 = (1 << 32) - 1
 M128 = (1 << 128) - 1
@@ -70,6 +70,56 @@ def covers(net, ip):
     f, a, p = net
     w = 32 if f == 4 else 128
     return f == ip[0] and (a >> (w - p)) == (ip[1] >> (w - p))
+
+
+# ---- request heads.  A request is [method, base target, pad] with pad = None or [pp, qn, hn, hs, hl, ms]:
+# "/" + pp x "s" appended to the path, "?q=" + qn x "a" as the query, hn headers "X-Pad-<i>: " + hs x "v", one
+# header "Cookie: " + hl x "c", the head written in two pieces ms milliseconds apart (driver: build_head).
+# Limits of the UNCHANGED HTTP layer, established by probing the real exporter (hyper 1.6 / http 1.3 / httparse):
+TARGET_MAX = 65534        # longest request target served; one byte more -> 414 (http::Uri's length limit)
+HEADERS_MAX = 100         # most header lines served; one more -> 431 (httparse's header array)
+HEAD_ASSUMED_OK = 400000  # every head up to this many bytes is served: below hyper's default max_buf_size
+#                           (8192 + 4096 * 100 = 417792); the effective limit is read-chunk dependent
+#                           (507904 observed), so 400001 .. 900000 is not generated and >= 1 MiB is "beyond"
+HEAD_BEYOND = 1 << 20
+PADDED_BASES = ["/metrics", "/", "/health", "/x"]
+HEAD_SIZES = [1 << 10, 1 << 11, 1 << 12, 1 << 13, 1 << 14, 1 << 15, 1 << 16, 1 << 17, 1 << 18, 300 * 1024]
+
+
+def req_pad(r):
+    return (r[2] if len(r) > 2 and r[2] else [0, 0, 0, 0, 0, 0])
+
+
+def req_target(r):
+    pp, qn = req_pad(r)[:2]
+    return r[1] + ("/" + "s" * pp if pp else "") + ("?q=" + "a" * qn if qn else "")
+
+
+def req_target_len(r):
+    pp, qn = req_pad(r)[:2]
+    return len(r[1].encode()) + (1 + pp if pp else 0) + (3 + qn if qn else 0)
+
+
+def req_headers(r, last):
+    pp, qn, hn, hs, hl, ms = req_pad(r)
+    return 1 + hn + (1 if hl else 0) + (1 if r[0] == "P" else 0) + (1 if last else 0)
+
+
+def head_len(r, last):
+    """bytes of the request head the driver sends (it echoes the number; parse_out compares)"""
+    pp, qn, hn, hs, hl, ms = req_pad(r)
+    n = (5 if r[0] == "P" else 4) + req_target_len(r) + len(" HTTP/1.1\r\nHost: c18\r\n")
+    n += sum(len("X-Pad-%d: " % i) + hs + 2 for i in range(hn))
+    n += (8 + hl + 2 if hl else 0) + (19 if r[0] == "P" else 0) + (19 if last else 0) + 2
+    return n
+
+
+def size_bucket(n):
+    for lim, name in [(1 << 10, "<1K"), (1 << 12, "1K-4K"), (1 << 13, "4K-8K"), (1 << 14, "8K-16K"), (1 << 16, "16K-64K"),
+                      (1 << 17, "64K-128K"), (1 << 18, "128K-256K"), (HEAD_ASSUMED_OK + 1, "256K-400K")]:
+        if n < lim:
+            return name
+    return ">400K"
 
 
 def v4text(a):
@@ -168,8 +218,13 @@ class C18(Prop):
             "listener: covering it (host, /w-1.., /96, /8, /0), covering its image in the other family, the adjacent "
             "block, or random; 3-9 steps (connections from focus peers, their neighbours and block edges with 1-4 keep-alive "
             "requests over 16 request targets, garbage / half-open / RST faults, metric updates, bursts of 5-50 "
-            "concurrent scrapers), always ending in a well-formed request. The (peer class x entry family x covers "
-            "peer/covers image/neither) table of every run is in coverage.c18_measured. Non-trivial: any case where at least one "
+            "concurrent scrapers), always ending in a well-formed request. Request-head size is a dimension: one "
+            "request in three connections has its head placed within 3 bytes of 1K..256K or 300K by a long path, a long "
+            "query, up to 100 header lines, one long cookie or a mix (target up to 65534 bytes), before / between / after "
+            "short requests on the same keep-alive connection, some written in two pieces 50-150 ms apart, a quarter of the "
+            "bursts with 1-16 KB queries; one connection in 14 ends with a request beyond exactly one limit of the "
+            "unchanged HTTP layer (target > 65534, > 100 header lines, head >= 1 MiB). The head-size distribution and the "
+            "(peer class x entry family x covers peer/covers image/neither) table of every run is in coverage.c18_measured. Non-trivial: any case where at least one "
             "of the three parsers accepts, or any server scenario; distinct = distinct (case, output).")
     design_ref = "DESIGN.md 4 C18"
     technique = ("Coq proof about a statement-by-statement model of add_allowed_address (ipnet's and std's address "
@@ -200,6 +255,13 @@ class C18(Prop):
                   "printer). As the code stands an IPv4 client of a dual-stack [::] listener is seen as ::ffff:a.b.c.d and is therefore "
                   "refused by IPv4 entries and served only through IPv6 entries covering the mapped address; the model follows the code "
                   "and the specification takes the peer address as the socket reports it (recorded as an observation, not a finding). "
+                  "Size limits of the HTTP layer are an assumption, not a theorem: every request whose target is at most 65534 bytes, "
+                  "with at most 100 header lines and a head of at most 400000 bytes (below hyper's default max_buf_size 417792) is a "
+                  "well-formed request in the model's sense and must be answered per the specification; the unchanged exporter's own "
+                  "limits were established by probing (414 beyond the target limit, 431 beyond 100 header lines or a head of 507905 "
+                  "bytes, the last one depending on read chunking, hence the margin). Beyond the limits the model returns the HTTP "
+                  "layer's refusal as data and spec_ok accepts any refusal without data (status other than 200, empty body) or, for "
+                  "an allowed peer, the specified answer; heads between 400001 bytes and 1 MiB are not generated. "
                   "The unspecified address :: cannot be a real peer and appears only in the pure layer; link-local and multicast "
                   "sources are not used. The peer_addr() error arm of check_tcp_allowed "
                   "(-> not allowed) is not in the model; it is reached on the real server by the RST fault steps when an allowlist "
@@ -208,6 +270,9 @@ class C18(Prop):
                   "requests and absolute-form targets are not generated.")
     assumptions = ["the driver may create a private network namespace (unshare(CLONE_NEWNET) as root, iproute2 `ip`, AnyIP local "
                    "routes, ip_nonlocal_bind); if it cannot, the run stops as MACHINERY-BROKEN, it does not pass",
+                   "request heads within the limits of the unchanged HTTP layer (target <= 65534 bytes, <= 100 header lines, head "
+                   "<= 400000 bytes, i.e. below hyper's default max_buf_size 417792) are requests the server must answer; "
+                   "these numbers were established on the unchanged exporter and are hyper/http/httparse defaults",
                    "a dual-stack listener reports an IPv4 client as ::ffff:a.b.c.d and any other client under its own address "
                    "(self-tested by the driver at start-up); a client's source address is the one it was bound to (asserted after connect)",
                    "the rendering does not change between the two handle.render() calls around a step (checked by the driver)"]
@@ -332,7 +397,7 @@ class C18(Prop):
         for _ in range(rng.weighted([(1, 0), (3, 1), (3, 2), (2, 3), (1, 4)])):
             P = seen(listen, rng.pick(focus))
             rel = rng.weighted([(3, "orig"), (3, "image"), (1, "near"), (1, "image-near"), (1, "rand"),
-                                (3 if entries else 0, "nest")])
+                                (7 if entries else 0, "nest")])
             if rel == "nest":
                 # a wider or narrower block around an entry already listed (nested / overlapping allowlists),
                 # written with the same address or with its own network address, placed before or after it
@@ -368,9 +433,9 @@ class C18(Prop):
         def peer():
             r = rng.below(20)
             cand = []
-            if r < 9:
+            if r < 8:
                 cand = [rng.pick(focus)]
-            elif r < 12:
+            elif r < 10:
                 f, a = rng.pick(focus)
                 cand = [[f, a + 1], [f, a - 1]]
             elif r < 18 and entries:
@@ -386,9 +451,65 @@ class C18(Prop):
                     (listen == "D" or (listen == "4") == (c[0] == 4))]
             return cand[0] if cand else self.gen_src(rng, listen)
 
+        def padded(last):
+            """a request whose head is placed at a chosen size: around a power of two (+-3 bytes), via a long path,
+            a long query, many headers or one long header; within the limits of the unchanged HTTP layer"""
+            m = rng.weighted([(5, "G"), (1, "P")])
+            base = rng.pick(PADDED_BASES)
+            size = rng.weighted([(2, HEAD_SIZES[rng.below(3)]), (4, HEAD_SIZES[3 + rng.below(4)]), (2, HEAD_SIZES[7 + rng.below(3)])])
+            want = size + rng.pick([-3, -2, -1, 0, 0, 1, 2, 3])
+            knob = rng.pick(["path", "query", "cookie", "headers", "mixed"])
+            if want > 60000 and knob in ("path", "query"):
+                knob = rng.pick(["cookie", "headers", "mixed"])
+            pad = [0, 0, 0, 0, 0, rng.pick([50, 150]) if rng.chance(1, 12) else 0]
+            if knob == "mixed":        # a long target (up to the target limit) and the rest in a cookie
+                pad[rng.below(2)] = rng.pick([1000, 4000, 8200, 30000, TARGET_MAX - len(base) - 3 - rng.below(3)])
+                knob = "cookie"
+            if knob == "headers":
+                pad[2] = rng.pick([3, 20, 60, 90, HEADERS_MAX - 3 - (1 if m == "P" else 0)])
+            r = [m, base, pad]
+            idx = {"path": 0, "query": 1, "cookie": 4, "headers": 3}[knob]
+            for _ in range(4):         # solve for the knob so that the head is exactly `want` bytes
+                pad[idx] = 1
+                per = pad[2] if knob == "headers" else 1
+                pad[idx] = max(1, 1 + (want - head_len(r, last)) // per)
+                if knob != "headers":
+                    break
+            if knob == "headers" and pad[4] == 0:
+                rest = want - head_len(r, last)
+                if rest > 10:
+                    pad[4] = rest - 10   # top up with a short cookie so that the total is exact
+            assert req_target_len(r) <= TARGET_MAX and req_headers(r, last) <= HEADERS_MAX and head_len(r, last) <= HEAD_ASSUMED_OK, r
+            return r
+
+        def beyond():
+            """one request beyond exactly one limit of the unchanged HTTP layer: [status it refuses with, request]"""
+            base = rng.pick(PADDED_BASES)
+            kind = rng.below(3)
+            if kind == 0:
+                n = rng.pick([1, 2, 3, 66, 4466]) + TARGET_MAX - len(base)
+                pad = [n - 1, 0, 0, 0, 0, 0] if rng.chance(1, 2) else [0, n - 3, 0, 0, 0, 0]
+                return [414, ["G", base, pad]]
+            if kind == 1:
+                return [431, ["G", base, [0, 0, HEADERS_MAX - 2 + rng.pick([1, 2, 20]), 10, 0, 0]]]
+            return [431, ["G", base, [0, 0, 0, 0, HEAD_BEYOND + rng.below(4), 0]]]
+
         def conn():
-            reqs = [[rng.weighted([(5, "G"), (1, "P")]), rng.pick(TARGETS)] for _ in range(rng.weighted([(4, 1), (2, 2), (1, 3), (1, 4)]))]
-            return ["C", peer(), reqs]
+            n = rng.weighted([(4, 1), (2, 2), (1, 3), (1, 4)])
+            reqs = [[rng.weighted([(5, "G"), (1, "P")]), rng.pick(TARGETS), None] for _ in range(n)]
+            over = None
+            if rng.chance(1, 3):       # one request of the connection gets a sized head (before/after short ones)
+                i = rng.below(n)
+                reqs[i] = padded(i == n - 1)
+            elif rng.chance(1, 15):
+                reqs[rng.below(n)][2] = [0, 0, 0, 0, 0, rng.pick([50, 150])]
+            if rng.chance(1, 14):
+                over = beyond()
+            if over is not None:
+                # requests before a refused one are not the last of their connection; the refused one is
+                for r in reqs:
+                    assert head_len(r, False) <= HEAD_ASSUMED_OK
+            return ["C", peer(), reqs, over]
         steps = []
         for _ in range(rng.range(2, 8)):
             r = rng.below(20)
@@ -399,7 +520,12 @@ class C18(Prop):
             elif r < 18:
                 steps.append(["I"])
             else:
-                steps.append(["B", rng.range(20, 50) if thorough else rng.range(5, 20), peer(), rng.pick(TARGETS)])
+                n = rng.range(20, 50) if thorough else rng.range(5, 20)
+                if rng.chance(1, 4):
+                    steps.append(["B", n, peer(), rng.pick(PADDED_BASES),
+                                  [0, rng.pick([1021, 4093, 8190, 8200, 16390]), 0, 0, 0, 0]])
+                else:
+                    steps.append(["B", n, peer(), rng.pick(TARGETS)])
         steps.append(conn())
         return dict(k="S", listen=listen, entries=entries, steps=steps, renders=None)
 
@@ -423,14 +549,28 @@ class C18(Prop):
         toks = []
         for s in c["steps"]:
             if s[0] == "C":
-                toks.append("C:%d.%d:%s" % (s[1][0], s[1][1], ",".join(m + t.encode().hex() for m, t in s[2])))
+                rq = list(s[2]) + ([s[3][1]] if len(s) > 3 and s[3] else [])
+                toks.append("C:%d.%d:%s" % (s[1][0], s[1][1], ",".join(self.req_token(r) for r in rq)))
             elif s[0] == "B":
-                toks.append("B:%d:%d.%d:%s" % (s[1], s[2][0], s[2][1], s[3].encode().hex()))
+                toks.append("B:%d:%d.%d:%s" % (s[1], s[2][0], s[2][1], self.req_token(["G", s[3], s[4] if len(s) > 4 else None])[1:]))
             elif s[0] == "I":
                 toks.append("I")
             else:
                 toks.append("%s:%d.%d:%s" % (s[0], s[1][0], s[1][1], s[2]))
         return "S %s %s | %s" % (c["listen"], ents, " ".join(toks))
+
+    @staticmethod
+    def req_token(r):
+        pad = r[2] if len(r) > 2 else None
+        return r[0] + r[1].encode().hex() + ("~" + ".".join(str(x) for x in pad) if pad else "")
+
+    @staticmethod
+    def step_reqs(s):
+        """(request, is the last of its connection) for every request the driver sends in step s, in output order"""
+        if s[0] == "B":
+            return [(["G", s[3], s[4] if len(s) > 4 else None], True)] * s[1]
+        rq = list(s[2]) + ([s[3][1]] if len(s) > 3 and s[3] else [])
+        return [(r, i == len(rq) - 1) for i, r in enumerate(rq)]
 
     @staticmethod
     def _net(t):
@@ -449,7 +589,7 @@ class C18(Prop):
         if line.strip() == "E":
             return dict(builderr=True)
         outs, renders = [], []
-        for tok in line.split():
+        for s, tok in zip(c["steps"], line.split()):
             if tok in ("f", "i"):
                 outs.append(tok)
                 renders.append(None)
@@ -457,8 +597,10 @@ class C18(Prop):
             kind, render, rs = tok.split(":")
             renders.append(render)
             rl = []
-            for r in rs.split(","):
-                st, body = r.split("/")
+            for (rq, last), r in zip(self.step_reqs(s), rs.split(",")):
+                st, body, sent = r.split("/")
+                if int(sent) not in (0, head_len(rq, last)):
+                    raise MachineryBroken("C18: the driver sent a %s-byte head where the generator computed %d: %r" % (sent, head_len(rq, last), rq))
                 rl.append([int(st), body])
             outs.append([kind, rl])
         c["renders"] = renders       # oracle data: what handle.render() returned around each step
@@ -468,7 +610,7 @@ class C18(Prop):
     def evaluate(self, binpath, cases, tier, tag="cases"):
         rs = super().evaluate(binpath, cases, tier, tag=tag)
         if tag == "cases":
-            self._pairs, self._resp = {}, {}
+            self._pairs, self._resp, self._heads = {}, {}, {}
             st = dict(entry_cases=0, entries_accepted_cidr=0, entries_accepted_plain=0, entries_rejected=0,
                       entries_ipv6_accepted=0, entries_with_documented_intent=0, membership_answers_true=0,
                       membership_answers_false=0, server_scenarios=0, connections=0, responses_200_render=0,
@@ -509,6 +651,7 @@ class C18(Prop):
                         else:
                             st["connections"] += 1
                         self.count_family(c, s[2] if s[0] == "B" else s[1], t[1])
+                        self.count_heads(s, t[1])
                         for code, body in t[1]:
                             if faulted:
                                 st["requests_after_a_fault"] += 1
@@ -520,6 +663,7 @@ class C18(Prop):
                                 st["responses_200_render"] += 1
                             else:
                                 st["responses_other"] += 1
+            st["head_sizes"] = dict(sorted(self._heads.items()))
             st["family_pairs"] = dict(sorted(self._pairs.items()))
             st["family_responses"] = dict(sorted(self._resp.items()))
             self._stats = st
@@ -528,6 +672,33 @@ class C18(Prop):
     @staticmethod
     def meaning_net(m):
         return (4, m[1], m[2]) if m[0] == "4" else (m[1], m[2], m[3])
+
+    def count_heads(self, s, rl):
+        """distribution of request-head sizes: bucket (or which limit is exceeded) x how the size was reached x status"""
+        over = s[3] if s[0] == "C" and len(s) > 3 else None
+        for (rq, last), (code, _) in zip(self.step_reqs(s), rl):
+            n = head_len(rq, last)
+            pp, qn, hn, hs, hl, ms = req_pad(rq)
+            if over and rq is over[1]:
+                what = "beyond: " + ("target > %d" % TARGET_MAX if req_target_len(rq) > TARGET_MAX else
+                                     "more than %d headers" % HEADERS_MAX if req_headers(rq, last) > HEADERS_MAX else "head >= 1 MiB")
+            else:
+                how = "+".join(x for x, v in (("path", pp), ("query", qn), ("headers", hn), ("cookie", hl)) if v) or "plain"
+                what = "%s via %s" % (size_bucket(n), how)
+                for k in range(10, 19):
+                    if abs(n - (1 << k)) <= 3:
+                        what2 = "within 3 bytes of %dK" % (1 << (k - 10))
+                        self._heads[what2] = self._heads.get(what2, 0) + 1
+            keys = ["%s -> %d" % (what.split(" via ")[0], code)]
+            if " via " in what:
+                keys.append("reached via " + what.split(" via ")[1] + (" (burst)" if s[0] == "B" else ""))
+            if ms:
+                keys.append("head written in two pieces %d ms apart" % ms)
+            if s[0] == "C" and len(s[2]) > 1 and (pp or qn or hn or hl):
+                keys.append("sized head %s on a keep-alive connection" %
+                            ("first" if rq is s[2][0] else "last" if last else "in the middle"))
+            for key in keys:
+                self._heads[key] = self._heads.get(key, 0) + 1
 
     def count_family(self, c, src, rl):
         """the address-family table: (peer class x entry family x covers the peer / covers an image of the peer in
@@ -568,6 +739,17 @@ class C18(Prop):
         return "None" if n is None else "(Some (V%d %s, %s))" % (n[0], cq_N(n[1]), cq_N(n[2]))
 
     @staticmethod
+    def cq_target(r):
+        """the request target with its padding run-length encoded (fill c n = n copies of byte c)"""
+        pp, qn = req_pad(r)[:2]
+        t = cq_bytes(r[1])
+        if pp:
+            t += " ++ [47] ++ fill 115 %s" % cq_N(pp)
+        if qn:
+            t += " ++ [63; 113; 61] ++ fill 97 %s" % cq_N(qn)
+        return "(%s)" % t if (pp or qn) else t
+
+    @staticmethod
     def cq_entry4(i):
         return "{| e_addr := %s; e_plen := %s; e_plain := %s |}" % (cq_N(i[0]), cq_N(i[1]), cq_bool(i[2]))
 
@@ -585,9 +767,13 @@ class C18(Prop):
         for s, r in zip(c["steps"], renders):
             rb = self.cq_hexbytes(r or "")
             if s[0] == "C":
-                steps.append("SConn %s %s %s" % (self.cq_ip(*seen(c["listen"], s[1])), rb, cq_list([cq_bytes(t) for _, t in s[2]])))
+                over = s[3] if len(s) > 3 else None
+                ov = "None" if not over else "(Some (%s, %s))" % (cq_N(over[0]), self.cq_target(over[1]))
+                steps.append("SConn %s %s %s %s" % (self.cq_ip(*seen(c["listen"], s[1])), rb,
+                                                     cq_list([self.cq_target(r) for r in s[2]]), ov))
             elif s[0] == "B":
-                steps.append("SBurst %s %s %s %s" % (cq_N(s[1]), self.cq_ip(*seen(c["listen"], s[2])), rb, cq_bytes(s[3])))
+                steps.append("SBurst %s %s %s %s" % (cq_N(s[1]), self.cq_ip(*seen(c["listen"], s[2])), rb,
+                                                      self.cq_target(["G", s[3], s[4] if len(s) > 4 else None])))
             elif s[0] == "I":
                 steps.append("SInc")
             else:
@@ -610,7 +796,8 @@ class C18(Prop):
             elif t == "i":
                 xs.append("OInc")
             else:
-                rl = cq_list(["(%s, %s)" % (cq_N(st), self.cq_hexbytes(b)) for st, b in t[1]])
+                # status 0 = no well-formed response at all; its "body" is the driver's error text, not data
+                rl = cq_list(["(%s, %s)" % (cq_N(st), self.cq_hexbytes(b if st else "")) for st, b in t[1]])
                 xs.append("%s %s" % ("OC" if t[0] == "c" else "OB", rl))
         return "(OServe %s)" % cq_list(xs)
 
